@@ -18,6 +18,8 @@ import Driver.C17
 
 import Driver.C10
 import Driver.C16
+import Driver.C05
+
 open Driver Relic.Model
 
 structure Conf where
@@ -74,7 +76,7 @@ def dispatch (c : Conf) (op : String) (args : List String) (got : String) : Opti
     | some e => C17.handle e c.w op args got
     | none => none) <|> (match c.fpx with
     | some e => C10.handle e op args got
-    | none => none) <|> (C16.handle c.fb c.eb c.ebCache c.w op args got)
+    | none => none) <|> (C16.handle c.fb c.eb c.ebCache c.w op args got) <|> (C05.handle c.ep c.w op args got)
 
 def processLine (c : Conf) (line : String) : String :=
   match line.splitOn " => " with
@@ -107,7 +109,7 @@ partial def loop (h : IO.FS.Stream) (out : IO.FS.Stream) (c : Conf) : IO Unit :=
     let c' := parseCfg (rhs.splitOn " ")
     out.putStrLn "cfg"
     loop h out c'
-  else if line.startsWith "ep_param " then
+  else if line.startsWith "ep_param " || line.startsWith "sigpc_param " then
     match line.splitOn " => " with
     | [_, got] =>
       match C03.parseEnv got with
